@@ -76,7 +76,8 @@ static std::vector<std::string> ga_test_events(bxdecay0::i_random & prng, int ne
   std::vector<std::string> out;
   try {
     bxdecay0::dbd_gA g;
-    g.set_dataset_version(".");
+    const char * ver = std::getenv("VERIF_GA_VERSION");   // "." = the shipped mock table; a generated tree uses v1.0
+    g.set_dataset_version(ver ? ver : ".");
     g.set_nuclide("Test");
     g.set_process(bxdecay0::dbd_gA::PROCESS_G0);
     g.set_shooting(bxdecay0::dbd_gA::SHOOTING_REJECTION);
@@ -230,15 +231,36 @@ static int run_free(int nthreads, int nev)
     std::string c;
     if (ls >> c) cfgs.push_back(parse_cfg(c));
   }
+  // configurations marked with a leading '!' are run by ALL threads at the same time (a barrier before each): their
+  // initialisations (table loaders, catalogue look-ups) overlap; the others are run in a rotated order
+  std::vector<GenCfg> together;
+  {
+    std::vector<GenCfg> rest;
+    for (auto & c : cfgs) {
+      if (!c.txt.empty() && c.txt[0] == '!') together.push_back(parse_cfg(c.txt.substr(1)));
+      else rest.push_back(c);
+    }
+    cfgs.swap(rest);
+  }
   size_t n = cfgs.size();
   std::vector<std::vector<std::vector<std::string>>> conc(nthreads, std::vector<std::vector<std::string>>(n));
+  std::vector<std::vector<std::vector<std::string>>> conc2(nthreads, std::vector<std::vector<std::string>>(together.size()));
   std::atomic<int> ready{0};
   std::atomic<bool> go{false};
+  std::vector<std::atomic<int>> arrived(together.size() + 1);
+  for (auto & a : arrived) a = 0;
   std::vector<std::thread> th;
   for (int t = 0; t < nthreads; t++) {
     th.emplace_back([&, t] {
       ready++;
       while (!go.load()) {
+      }
+      for (size_t k = 0; k < together.size(); k++) {
+        arrived[k]++;
+        while (arrived[k].load() < nthreads) {
+        }
+        vh::stream s(555 + 7 * t + 31 * k);
+        conc2[t][k] = init_and_shoot(together[k], s, nev);
       }
       for (size_t k = 0; k < n; k++) {
         size_t i = (k + (size_t)t * n / (size_t)nthreads) % n;
@@ -262,7 +284,18 @@ static int run_free(int nthreads, int nev)
         printf("{\"differ\":\"%s\",\"thread\":%d}\n", cfgs[i].txt.c_str(), t);
       }
     }
-  printf("{\"phase\":\"free\",\"threads\":%d,\"configs\":%zu,\"events_compared\":%ld,\"differ\":%ld}\n", nthreads, n, compared, differ);
+  for (int t = 0; t < nthreads; t++)
+    for (size_t k = 0; k < together.size(); k++) {
+      vh::stream s(555 + 7 * t + 31 * k);
+      auto alone = init_and_shoot(together[k], s, nev);
+      compared += (long)alone.size();
+      if (alone != conc2[t][k]) {
+        differ++;
+        printf("{\"differ\":\"!%s\",\"thread\":%d,\"got\":\"%s\"}\n", together[k].txt.c_str(), t,
+               vh::json_escape(conc2[t][k].empty() ? std::string("-") : conc2[t][k].back().substr(0, 120)).c_str());
+      }
+    }
+  printf("{\"phase\":\"free\",\"threads\":%d,\"configs\":%zu,\"events_compared\":%ld,\"differ\":%ld}\n", nthreads, n + together.size(), compared, differ);
   return 0;
 }
 
